@@ -909,7 +909,61 @@ pub fn gen_ext_doc(rng: &mut Rng) -> CorpusDoc {
     }
 }
 
-pub fn gen_options(rng: &mut Rng) -> CliOptions {
+/// Crates named by the x-rust-type annotations of a document.
+pub fn doc_crates(doc_text: &str) -> Vec<String> {
+    fn walk(v: &serde_json::Value, out: &mut Vec<String>) {
+        match v {
+            serde_json::Value::Object(o) => {
+                if let Some(c) = o.get("x-rust-type").and_then(|x| x.get("crate")).and_then(|c| c.as_str()) {
+                    out.push(c.to_string());
+                }
+                for x in o.values() {
+                    walk(x, out);
+                }
+            }
+            serde_json::Value::Array(a) => a.iter().for_each(|x| walk(x, out)),
+            _ => {}
+        }
+    }
+    let mut out = Vec::new();
+    if let Ok(v) = serde_json::from_str::<serde_json::Value>(doc_text) {
+        walk(&v, &mut out);
+    }
+    out.sort();
+    out.dedup();
+    out
+}
+
+/// Order in which crates of the pool are considered for --crate options:
+/// the crates the document actually mentions first (so that the options are
+/// observable), then the rest.
+pub fn crate_order(rng: &mut Rng, mentioned: &[String]) -> Vec<usize> {
+    let mut first: Vec<usize> = Vec::new();
+    let mut rest: Vec<usize> = Vec::new();
+    for (i, (n, _)) in EXT_CRATES.iter().enumerate() {
+        if mentioned.iter().any(|m| m == n) {
+            first.push(i);
+        } else {
+            rest.push(i);
+        }
+    }
+    rng.shuffle(&mut first);
+    rng.shuffle(&mut rest);
+    if rng.chance(1, 5) {
+        // sometimes an unrelated crate comes first
+        rest.extend(first);
+        rest
+    } else {
+        first.extend(rest);
+        first
+    }
+}
+
+pub fn ext_crate(i: usize) -> (&'static str, &'static str) {
+    EXT_CRATES[i]
+}
+
+pub fn gen_options(rng: &mut Rng, mentioned: &[String]) -> CliOptions {
     let mut o = CliOptions::default();
     o.builder = *rng.pick(&[None, Some(true), Some(false)]);
     let nd = *rng.pick(&[0usize, 0, 1, 2, 3]);
@@ -925,9 +979,8 @@ pub fn gen_options(rng: &mut Rng) -> CliOptions {
         2 => Some("::indexmap::IndexMap".into()),
         _ => None,
     };
-    let nc = *rng.pick(&[0usize, 0, 1, 1, 2, 3]);
-    let mut cidx: Vec<usize> = (0..EXT_CRATES.len()).collect();
-    rng.shuffle(&mut cidx);
+    let nc = if mentioned.is_empty() { *rng.pick(&[0usize, 0, 1, 1, 2, 3]) } else { *rng.pick(&[0usize, 1, 1, 2, 2, 3]) };
+    let cidx = crate_order(rng, mentioned);
     for i in cidx.into_iter().take(nc) {
         let (name, vers) = EXT_CRATES[i];
         let version = match rng.below(6) {
@@ -967,7 +1020,7 @@ pub fn gen_cli_run(seed: u64, corpus: &[CorpusDoc], faults: bool) -> CliRun {
     } else {
         rng.pick(corpus).clone()
     };
-    let options = gen_options(&mut rng);
+    let options = gen_options(&mut rng, &doc_crates(&doc.text));
     let input_name = rng
         .pick(&["in.json", "a.b.json", "noext", "sub/dir/schema.json", "UPPER.JSON", "sp ace.json"])
         .to_string();
